@@ -219,7 +219,7 @@ pub fn sample<S: Strategy>(s: &S, seed: u64, n: usize) -> Vec<S::Value> {
 
 /// Rewrites shapes that asn1rs is known to turn into uncompilable Rust (open C09 findings), so
 /// that the run-time zoo builds. Returns the number of rewrites.
-fn sanitize_type(t: &mut Type, n: &mut usize) {
+fn sanitize_type(t: &mut Type, aliases: &[String], n: &mut usize) {
     match t {
         // named bits, and named numbers on anything but a finite non-extensible range, do not
         // compile (constants of the wrong type; open C09 finding "named-constants-type")
@@ -238,13 +238,28 @@ fn sanitize_type(t: &mut Type, n: &mut usize) {
         }
         Type::Sequence(f) | Type::Set(f) => {
             for c in &mut f.comps {
-                sanitize_type(&mut c.ty, n);
+                // DEFAULT through a reference to an alias of a primitive type: the constant has the
+                // primitive's type (open C09 finding "default-through-alias")
+                if let (Presence::Default(_), Type::Ref(r)) = (&c.presence, &c.ty) {
+                    if aliases.contains(r) {
+                        c.presence = Presence::Optional;
+                        *n += 1;
+                    }
+                }
+                sanitize_type(&mut c.ty, aliases, n);
+                // (MIN..ub) is an unsigned Rust type (open C15 finding): a negative DEFAULT does not compile
+                if let (Presence::Default(d), Type::Integer { range: Some(r), .. }) = (&mut c.presence, &c.ty) {
+                    if r.lb.is_none() && !r.ext && matches!(d.lit, Lit::Int(v) if v < 0) {
+                        d.lit = Lit::Int(0);
+                        *n += 1;
+                    }
+                }
             }
         }
-        Type::SequenceOf { elem, .. } | Type::SetOf { elem, .. } => sanitize_type(elem, n),
+        Type::SequenceOf { elem, .. } | Type::SetOf { elem, .. } => sanitize_type(elem, aliases, n),
         Type::Choice { alts, .. } => {
             for a in alts {
-                sanitize_type(&mut a.ty, n);
+                sanitize_type(&mut a.ty, aliases, n);
             }
         }
         _ => {}
@@ -253,9 +268,10 @@ fn sanitize_type(t: &mut Type, n: &mut usize) {
 
 pub fn sanitize_for_zoo(m: &mut Module) -> usize {
     let mut n = 0;
+    let aliases: Vec<String> = m.defs().filter(|d| !d.ty.is_own_rust_type()).map(|d| d.name.clone()).collect();
     for a in &mut m.body {
         if let Assignment::Type(d) = a {
-            sanitize_type(&mut d.ty, &mut n);
+            sanitize_type(&mut d.ty, &aliases, &mut n);
             // top-level SEQUENCE OF / SET OF whose (possibly nested list) element is an inline
             // constructed type: wrap the list into a one-component SEQUENCE
             let mut t = &d.ty;
